@@ -208,6 +208,10 @@ func (a *aggregator) addPart(part, total uint8, data []byte) bool {
 	if a.parts == nil {
 		a.parts = make([][]byte, total)
 	}
+	if int(part) >= len(a.parts) {
+		// a fragment which contradicts the part count this aggregator was created with
+		return false
+	}
 	a.parts[int(part)] = append([]byte{}, data...)
 	for i := range a.parts {
 		if a.parts[i] == nil {
